@@ -37,6 +37,8 @@ pub struct Compiler {
     /// Set of variables that have been hoisted in the current scope
     /// Used to determine if we should emit DeclareVarHoisted or SetVar
     hoisted_vars: FxHashSet<JsString>,
+    /// Function declarations (by span start) already instantiated at the top of their scope
+    hoisted_functions: FxHashSet<usize>,
 
     /// Loop variable redirects: when compiling for-loop updates, assignments to
     /// these variables should write to the register instead of the environment.
@@ -106,6 +108,7 @@ impl Compiler {
             labels: FxHashMap::default(),
             try_depth: 0,
             hoisted_vars: FxHashSet::default(),
+            hoisted_functions: FxHashSet::default(),
             loop_var_redirects: FxHashMap::default(),
             class_context_stack: Vec::new(),
             next_class_brand: 0,
